@@ -1278,7 +1278,7 @@ class Interp:
         if op in ("Add", "Sub") and isinstance(r, IntV) and isinstance(l, (SymV, LinV)):
             k = r.n if op == "Add" else -r.n
             if isinstance(l, LinV):
-                return LinV(l.base, l.k + k)
+                return LinV(l.base, l.k + k) if l.k + k != 0 else SymV(l.base)
             return LinV(l.name, k)
         if isinstance(l, (SymV, IntV, LinV)) and isinstance(r, (SymV, IntV, LinV)):
             return SymV("(%r %s %r)" % (l, op, r), n["ty"] if n else None)
